@@ -256,7 +256,9 @@ class ContractMixin:
             key = node.args[0].value
             ev = g.get(key) or Sym("seq", Q.Empty(), Spec("seq", VAL))
             k = as_int(self.eval(node.args[1], st), st)
-            return S_val(uf("rec:" + key, V, IntS, V)(Q.At(ev.t, k), k))
+            rv = uf("rec:" + key, V, IntS, V)(Q.At(ev.t, k), k)
+            rspec = getattr(self.contract, "record_result_specs", {}).get(key)
+            return unbox(rspec, rv, st, facts=False) if rspec is not None else S_val(rv)
         if name == "call_args":
             g = st.notes.get("ghost_appends") or {}
             ev = g.get(node.args[0].value) or Sym("seq", Q.Empty(), Spec("seq", VAL))
